@@ -98,13 +98,27 @@ def build_sources(d):
         p = os.path.join(d, "bad-" + key + (".records" if not key.endswith(".gz") else ".records.gz"))
         open(p, "wb").write(data)
         out[key] = (p, specs)
-    gz = gzip.compress(g1, mtime=0)
-    p = os.path.join(d, "bad-torn.records.gz")
-    open(p, "wb").write(gz[: len(gz) // 2])
+    # a long, poorly compressible stream so that the torn gzip holds many complete deflate blocks
+    import hashlib
     import zlib
 
-    avail = len(zlib.decompressobj(31).decompress(gz[: len(gz) // 2]))
-    out["torn.gz"] = (p, GOOD["G1"][: sum(1 for e in rec_ends if e <= avail)])
+    long_specs = [rs("t/l", [["string", "h"], ["varint", "n"]], ["'%s'" % hashlib.sha256(b"%d" % i).hexdigest() * 3, str(1000 + i)]) for i in range(400)]
+    lbuf = io.BytesIO()
+    lw = RecordStreamWriter(lbuf)
+    for sp in long_specs:
+        lw.write(recs.build_record(sp))
+    lraw = lbuf.getvalue()
+    lw.fp = None
+    lframes = refcodec.split_frames(lraw)
+    _, ldec = refcodec.decode_stream(lraw)
+    lrec_ends = [end for (_, end, _), ev in zip(lframes, ldec.events) if ev[0] in ("REC", "GROUPED")]
+    gz = gzip.compress(lraw, mtime=0)
+    p = os.path.join(d, "bad-torn.records.gz")
+    cut = (len(gz) * 2) // 3
+    open(p, "wb").write(gz[:cut])
+    avail = len(zlib.decompressobj(31).decompress(gz[:cut]))
+    out["torn.gz"] = (p, long_specs[: sum(1 for e in lrec_ends if e <= avail)])
+    gz = gzip.compress(g1, mtime=0)
     dmg = bytearray(gz)
     for i in range(len(dmg) // 2, len(dmg) // 2 + 8):
         dmg[i] ^= 0xFF
@@ -250,7 +264,7 @@ def run_slice(case):
 
 # ---- writer kinds ------------------------------------------------------------------------------------------------------
 
-WRITERS = ["stream", "stream.gz", "jsonlines", "json", "csv", "line", "line-verbose", "text", "jsonfile-desc", "csvfile-uri", "sqlite", "split", "avro"]
+WRITERS = ["stream", "stream.gz", "jsonlines", "json", "csv", "line", "line-verbose", "text", "jsonfile-desc", "csvfile-uri", "sqlite", "split", "split-overflow", "avro"]
 
 
 def jv(o):
@@ -339,6 +353,9 @@ def run_writer(case):
     elif wk == "split":
         outp = os.path.join(base, "o.records")
         argv += ["-w", outp, "--split", "3"]
+    elif wk == "split-overflow":  # more parts than the suffix length can count
+        outp = os.path.join(base, "o.records")
+        argv += ["-w", outp, "--split", "1", "--suffix-length", "1"]
     elif wk == "avro":
         outp = os.path.join(base, "o.avro")
         argv += ["-w", outp]
@@ -360,8 +377,10 @@ def run_writer(case):
             return (sl["n"][2] if "n" in sl and sl["n"][0] == "int" else None, sl["ts_description"][2] if "ts_description" in sl else None)
 
         want_ids = [ident(o) for o in want]
-        if wk in ("stream", "stream.gz", "jsonfile-desc", "split", "avro", "sqlite"):
-            files = sorted(os.listdir(base))
+        if wk in ("stream", "stream.gz", "jsonfile-desc", "split", "split-overflow", "avro", "sqlite"):
+            import re as _re
+
+            files = sorted(os.listdir(base), key=lambda f: [int(x) if x.isdigit() else x for x in _re.split(r"(\d+)", f)])
             got = []
             for f in files:
                 uri = os.path.join(base, f)
@@ -373,7 +392,7 @@ def run_writer(case):
                 if exc is not None:
                     viol.append(("C16:writer:%s:output-unreadable-%s" % (label, type(exc).__name__), case, {"file": f, "error": repr(exc)[:200]}))
                 got += g
-            if wk in ("stream", "stream.gz", "jsonfile-desc", "split"):
+            if wk in ("stream", "stream.gz", "jsonfile-desc", "split", "split-overflow"):
                 ogot = obs_list(got)
                 if wk == "jsonfile-desc":
                     # JSON carries no path flavour / nested descriptors the same way: compare on identity + field lists
